@@ -3,6 +3,7 @@
 package c02
 
 import (
+	"bytes"
 	"container/list"
 	"errors"
 	"fmt"
@@ -512,8 +513,52 @@ func soupItems() []soupItem {
 
 func strp(s string) *string { return &s }
 
+// fastPathMaps: the encoder has a hand-written body writer for every (key kind, value kind)
+// pair. For each key kind a map to interface{} whose values share one pointer, one list and
+// one referable string (each also a second time), and a map to string with one string under
+// several keys. The map order is random, so whichever value comes second must be a back-reference.
+func fastPathMaps() []soupItem {
+	var out []soupItem
+	keyTypes := []reflect.Type{
+		reflect.TypeOf(""), reflect.TypeOf(int(0)), reflect.TypeOf(int8(0)), reflect.TypeOf(int16(0)), reflect.TypeOf(int32(0)), reflect.TypeOf(int64(0)),
+		reflect.TypeOf(uint(0)), reflect.TypeOf(uint8(0)), reflect.TypeOf(uint16(0)), reflect.TypeOf(uint32(0)), reflect.TypeOf(uint64(0)),
+		reflect.TypeOf(float32(0)), reflect.TypeOf(float64(0)), reflect.TypeOf((*interface{})(nil)).Elem(),
+	}
+	key := func(kt reflect.Type, i int) reflect.Value {
+		switch kt.Kind() {
+		case reflect.String:
+			return reflect.ValueOf(fmt.Sprintf("key-%d", i))
+		case reflect.Interface:
+			return reflect.ValueOf(&[]interface{}{i + 1}[0]).Elem()
+		case reflect.Float32, reflect.Float64:
+			return reflect.ValueOf(float64(i) + 1.5).Convert(kt)
+		}
+		return reflect.ValueOf(i + 1).Convert(kt)
+	}
+	for _, kt := range keyTypes {
+		shared := &gentypes.Tree{Name: "shared-through-map-values"}
+		sharedList := []interface{}{"in a shared list", 1}
+		mi := reflect.MakeMap(reflect.MapOf(kt, reflect.TypeOf((*interface{})(nil)).Elem()))
+		vals := []interface{}{shared, shared, sharedList, sharedList, "probe-string", "probe-string", 5, nil}
+		for i, v := range vals {
+			if v == nil {
+				mi.SetMapIndex(key(kt, i), reflect.Zero(mi.Type().Elem()))
+			} else {
+				mi.SetMapIndex(key(kt, i), reflect.ValueOf(v))
+			}
+		}
+		out = append(out, soupItem{"map-" + kt.String() + "-to-interface", mi.Interface(), false})
+		ms := reflect.MakeMap(reflect.MapOf(kt, reflect.TypeOf("")))
+		for i := 0; i < 4; i++ {
+			ms.SetMapIndex(key(kt, i), reflect.ValueOf("probe-string"))
+		}
+		out = append(out, soupItem{"map-" + kt.String() + "-to-string", ms.Interface(), false})
+	}
+	return out
+}
+
 func soupCases(r *h.Run) {
-	items := soupItems()
+	items := append(soupItems(), fastPathMaps()...)
 	for i, it := range items {
 		for pos := 0; pos < 3; pos++ {
 			i, it, pos := i, it, pos
@@ -585,6 +630,20 @@ func runSoup(c *h.Case, name string, seq []interface{}, noDecode bool) {
 	}
 	if why := eqv.DEqual(want, got); why != "" {
 		c.Violation("soup-wrong-reference:"+name, fmt.Sprintf("read independently, the stream denotes something else: %s\nbytes=%s", why, h.Hex(clipb(data, 800))), rep)
+	}
+	// each distinct object is written once: the independent reader must find as many distinct
+	// objects of a class as the value has (a second full copy instead of a back-reference
+	// shows as one more), and a referable string literal appears once in the stream
+	for _, cls := range []string{"Tree", "Scalars", "One", "OnePtr", "Nested", "Embeds"} {
+		if w, g := countClass(want, cls), countClass(got, cls); w != g {
+			c.Violation("object-written-more-than-once:"+name, fmt.Sprintf("the value has %d distinct %s objects, the stream defines %d\nbytes=%s", w, cls, g, h.Hex(clipb(data, 800))), rep)
+		}
+	}
+	for _, lit := range []string{"probe-string", "shared-through-map-values"} {
+		// (the message of an error value is written after an E tag and is not referable)
+		if n := bytes.Count(data, []byte(lit)) - bytes.Count(data, []byte(fmt.Sprintf("Es%d\"%s\"", len(lit), lit))); n > 1 {
+			c.Violation("string-written-more-than-once:"+name, fmt.Sprintf("the referable string %q is written %d times in one reference-mode stream\nbytes=%s", lit, n, h.Hex(clipb(data, 800))), rep)
+		}
 	}
 	c.R.Stat("refs_resolved", int64(rd.NRefUse))
 	if rd.NRefUse == 0 {
